@@ -1,3 +1,4 @@
+// @READY (registered in vf/props.py)
 // appended to src/common/alccodec/alcrs2m.rs (scratch copy only) -- RFC 5510 section 4 (FEC Encoding ID 2, Reed-Solomon GF(2^m))
 #[cfg(any(kani, test))]
 #[allow(dead_code, unused_imports, unused_macros)]
